@@ -59,77 +59,87 @@ SAN_LINK = ['-fsanitize=address,undefined']
 
 class CaseBuild:
     """
-    Incremental build of the executables of one case in one directory.  Objects are reused when
-    name, text and flags are unchanged.  Fortran units are compiled with -fcheck=all and FPE traps, the
-    generated C with ASan+UBSan; every executable is linked against the sanitizer run-times.
+    Builds the executables of one case in one directory with as few compiler processes as possible: all
+    Fortran units of an executable are concatenated into one file and compiled + linked by one gfortran
+    command (-fcheck=all, FPE traps); the generated C is compiled with gcc ASan+UBSan; every executable is
+    linked against the sanitizer run-times.  If a concatenated build fails the parts are compiled one by
+    one to attribute the failure.
     """
 
     def __init__(self, wd):
         self.wd = Path(wd)
         shutil.rmtree(self.wd, ignore_errors=True)
         self.wd.mkdir(parents=True)
-        self.done = {}
+        self.cobj = None
         self.ncompile = 0
 
     def write(self, name, text):
         (self.wd / name).write_text(text)
 
-    def compile(self, name, text, obj=None, extra=(), stage='fc', force=False):
-        obj = obj or name + '.o'
-        sig = (name, text, tuple(extra))
-        if not force and self.done.get(obj) == sig:
-            return obj
-        self.write(name, text)
-        if name.endswith('.c'):
-            cmd = ['gcc'] + diffexec.CFLAGS + list(extra) + ['-c', name, '-o', obj]
-        else:
-            cmd = ['gfortran'] + FFLAGS_PLAIN + list(extra) + ['-c', name, '-o', obj]
-        rc, _out, err = diffexec._run(cmd, self.wd, 300)       # pylint: disable=protected-access
+    def _cmd(self, cmd):
+        rc, _out, err = diffexec._run(cmd, self.wd, 600)       # pylint: disable=protected-access
         self.ncompile += 1
         if rc == -999:
-            raise diffexec.BuildError('timeout', name)
-        if rc != 0:
-            self.done.pop(obj, None)
-            raise diffexec.BuildError(stage, f'{name}: {err[-1500:]}')
-        self.done[obj] = sig
-        return obj
+            raise diffexec.BuildError('timeout', ' '.join(cmd[-3:]))
+        return rc, err
 
-    def link(self, objs, exe):
-        rc, _out, err = diffexec._run(['gfortran'] + FFLAGS_PLAIN + SAN_LINK + list(objs) + ['-o', exe], self.wd, 300)  # pylint: disable=protected-access
-        if rc == -999:
-            raise diffexec.BuildError('timeout', exe)
+    def fortran_exe(self, name, parts, exe, objs=()):
+        """parts: list of (stage, text).  One gfortran command; on failure attribute it to a part."""
+        text = '\n'.join(t for _s, t in parts)
+        self.write(name, text)
+        rc, err = self._cmd(['gfortran'] + FFLAGS_PLAIN + SAN_LINK + [name] + list(objs) + ['-o', exe])
+        if rc == 0:
+            return self.wd / exe
+        # attribute: compile the parts separately, in order
+        for q, (stage, t) in enumerate(parts):
+            pn = f'part{q}_{name}'
+            self.write(pn, (parts[0][1] if parts[0][0] == 'define' and q else '') + t)
+            if stage == 'define':
+                continue
+            rc2, err2 = self._cmd(['gfortran'] + FFLAGS_PLAIN + ['-c', pn, '-o', pn + '.o'])
+            if rc2 != 0:
+                raise diffexec.BuildError(stage, err2[-1500:])
+        raise diffexec.BuildError('link', err[-1500:])
+
+    def c_object(self, files):
+        sig = tuple(sorted((n, t) for n, t in files.items() if n.endswith(('.h', '.c'))))
+        if self.cobj == sig:
+            return 'kern_c.o'
+        for n, t in files.items():
+            if n.endswith(('.h', '.c')):
+                self.write(n, t)
+        rc, err = self._cmd(['gcc'] + diffexec.CFLAGS + ['-c', 'kern_c.c', '-o', 'kern_c.o'])
         if rc != 0:
-            raise diffexec.BuildError('link', err[-1500:])
-        return self.wd / exe
+            self.cobj = None
+            raise diffexec.BuildError('cc', err[-1500:])
+        self.cobj = sig
+        return 'kern_c.o'
 
 
 def build_orig(case, cb):
     """original kernel (wrapped in module kmod) + untouched driver"""
-    objs = []
+    parts = []
     if case.tmod:
-        objs.append(cb.compile('tmod.F90', case.tmod, stage='orig'))
-    objs.append(cb.compile('kmod.F90', 'module kmod\ncontains\n' + case.kernel + 'end module kmod\n', stage='orig'))
-    objs.append(cb.compile('drv.F90', case.driver, obj='drv_orig.o', stage='orig', force=True))
-    return cb.link(objs, 'orig.exe')
+        parts.append(('orig', case.tmod))
+    parts.append(('orig', 'module kmod\ncontains\n' + case.kernel + 'end module kmod\n'))
+    parts.append(('orig', case.driver))
+    try:
+        return cb.fortran_exe('orig_all.F90', parts, 'orig.exe')
+    except diffexec.BuildError as e:
+        raise diffexec.BuildError('orig', e.msg) from e
 
 
 def build_c(case, files, cb, tag):
-    """generated C kernel + generated wrapper module(s) + the same driver (with -DUSE_FC)"""
-    for n, t in files.items():
-        if n.endswith('.h'):
-            cb.write(n, t)
-    objs = []
+    """generated C kernel + generated wrapper module(s) + the same driver (with USE_FC defined)"""
+    obj = cb.c_object(files)
+    parts = [('define', '#define USE_FC\n')]
     if case.tmod:
-        objs.append(cb.compile('tmod.F90', case.tmod, stage='orig'))
+        parts.append(('orig', case.tmod))
         if 'tmod_fc.F90' in files:
-            objs.append(cb.compile('tmod_fc.F90', files['tmod_fc.F90'], stage='fc'))
-    hdrs = tuple(sorted((n, t) for n, t in files.items() if n.endswith('.h')))
-    objs.append(cb.compile('kern_c.c', files['kern_c.c'], extra=(), stage='cc',
-                           force=cb.done.get('hdrs') != hdrs))
-    cb.done['hdrs'] = hdrs
-    objs.append(cb.compile('kern_fc.F90', files['kern_fc.F90'], stage='fc'))
-    objs.append(cb.compile('drv.F90', case.driver, obj='drv_fc.o', extra=('-DUSE_FC',), stage='fc', force=True))
-    return cb.link(objs, f'new_{tag}.exe')
+            parts.append(('fc', files['tmod_fc.F90']))
+    parts.append(('fc', files['kern_fc.F90']))
+    parts.append(('fc', case.driver))
+    return cb.fortran_exe(f'new_{tag}.F90', parts, f'new_{tag}.exe', objs=[obj])
 
 
 def parse_output(out):
@@ -157,7 +167,10 @@ def compare_values(ref, new, tainted):
     if len(ref) != len(new):
         return [{'name': '*', 'tag': 'shape', 'why': f'{len(ref)} vs {len(new)} output values'}]
     pos = {}
+    cur = 0
     for (na, ta, va), (nb, tb, vb) in zip(ref, new):
+        if na == '===':
+            cur, pos = va, {}
         q = pos[na] = pos.get(na, -1) + 1
         if na != nb or ta != tb:
             return [{'name': na, 'tag': 'shape', 'why': f'output record {na}/{ta} vs {nb}/{tb}'}]
@@ -169,7 +182,7 @@ def compare_values(ref, new, tainted):
             if va != va or vb != vb:
                 ok = (va != va) and (vb != vb)
         if not ok:
-            mism.append({'name': na, 'tag': ta, 'pos': q, 'ref': va, 'new': vb})
+            mism.append({'set': cur, 'name': na, 'tag': ta, 'pos': q, 'ref': va, 'new': vb})
     return mism
 
 
